@@ -210,6 +210,9 @@ impl SourceView {
                 rest
             };
 
+            // between the two writes of a loop round: the progress counter is ahead of the line table
+            #[cfg(sourcemap_verif)]
+            crate::verif::yield_point(4);
             lines.push(unsafe {
                 str::from_utf8_unchecked(slice::from_raw_parts(rv.as_ptr(), rv.len()))
             });
